@@ -6,22 +6,25 @@ TARGETS = {
     "c11_main_rc":   {"src": "C11/main_runner.cpp", "variant": "asan", "engine": "rc",
                       "libs": ["main", "terminal", "coroutine", "trace", "log", "network", "eventx", "event", "util", "base"]},
 }
+# The driver's default ASAN_OPTIONS use malloc_context_size=12: with rapidcheck's deep generator recursion that makes
+# ASan's stack depot grow without bound (6 GB RSS after 200 000 cases, OOM-killed) and costs a factor 3 in speed.
+_ASAN = "detect_leaks=1:detect_stack_use_after_return=0:allocator_may_return_null=1:handle_abort=0:symbolize=1:malloc_context_size=4"
 PROP = {
     "subchecks": [
-        {"target": "c11_tree_rc", "sub": "tree",
-         "quick": {"cases": 12000, "max_size": 24, "workers": 8},
+        {"target": "c11_tree_rc", "sub": "tree", "env": {"ASAN_OPTIONS": _ASAN},
+         "quick": {"cases": 30000, "max_size": 24, "workers": 8},
          "thorough": {"cases": 250000, "max_size": 30, "workers": 8}},
         # one rapidcheck "case" = one slice of the complete enumeration; max_size = max number of nodes,
         # cases = slices per worker; C11_EXH_WORKERS must equal "workers" (same in both tiers)
-        {"target": "c11_tree_rc", "sub": "exhaustive_small", "env": {"C11_EXH_WORKERS": "8"},
+        {"target": "c11_tree_rc", "sub": "exhaustive_small", "env": {"C11_EXH_WORKERS": "8", "ASAN_OPTIONS": _ASAN},
          "quick": {"cases": 8, "max_size": 4, "workers": 8},
          "thorough": {"cases": 32, "max_size": 5, "workers": 8}},
-        {"target": "c11_tree_fuzz", "sub": "tree",
+        {"target": "c11_tree_fuzz", "sub": "tree", "env": {"ASAN_OPTIONS": _ASAN},
          "quick": {"runs": 60000, "max_len": 300, "workers": 2},
          "thorough": {"runs": 2500000, "max_len": 400, "workers": 3}},
-        {"target": "c11_main_rc", "sub": "main_runner",
-         "quick": {"cases": 500, "max_size": 12, "workers": 4, "case_alarm": 200},
-         "thorough": {"cases": 12000, "max_size": 12, "workers": 5, "case_alarm": 200}},
+        {"target": "c11_main_rc", "sub": "main_runner", "env": {"ASAN_OPTIONS": _ASAN},
+         "quick": {"cases": 700, "max_size": 12, "workers": 4, "case_alarm": 600},
+         "thorough": {"cases": 12000, "max_size": 12, "workers": 5, "case_alarm": 600}},
     ],
     "assumptions": [
         "every call sequence ends with cleanup() on the root followed by destruction of the tree (the statement's 'cleaned up and destroyed'); destroying a started tree WITHOUT cleanup() is outside the domain (a C++ destructor cannot reach the derived hooks of the object being destroyed)",
@@ -29,7 +32,7 @@ PROP = {
         "hooks do not throw and do not call back into the tree",
         "a node whose onStart returned false is 'not started': no onStop is expected or allowed for it; likewise no onCleanup after onInit returned false",
         "state() is compared with the phase implied by the node's own hook log after every call on the root",
-        "main_runner: SIGTERM is raised by a task queued on the context's loop (first loop pass); events are split into the phases of Main() by the first start hook and by that task; a run that exceeds 30 s is a hang only if the child no longer consumes CPU",
+        "main_runner: SIGTERM is raised by a task queued on the context's loop (first loop pass); events are split into the phases of Main() by the first start hook and by that task; a run that exceeds 30 s is a hang only if the child consumes no CPU and all its threads sleep (otherwise it gets up to 5 min, then counts as inconclusive)",
     ],
 }
 META = {
